@@ -1,0 +1,16 @@
+//go:build verif
+
+package swamp
+
+import "sync/atomic"
+
+// VerifEventSendingActive reports isEventSendingActive of a swamp object (verification harness
+// only: the C19 harness waits for it after subscribing, so that no write races with the
+// deferred StartSendingEvents of SubscribeToSwampEvents).
+func VerifEventSendingActive(s Swamp) bool {
+	ss, ok := s.(*swamp)
+	if !ok {
+		return false
+	}
+	return atomic.LoadInt32(&ss.isEventSendingActive) == 1
+}
